@@ -465,3 +465,30 @@ class NonPointlessBoxes:
             c.exists(0, n, lambda i: c.and_(c.or_(a == i, a == i + 1), c.or_(b == p[i], b == p[i] + 1)))))
 
     modifies = ()
+
+
+def _shade(k):
+    params = {"self": "Mesh"}
+    params.update({f"positions#{i}": "Cell" for i in range(k)})
+
+    @contract(f"MeshPatt.shade@{k + 1}", params=params, returns="Mesh", props=("C18",))
+    class _K:
+        # the same pattern; a cell is shaded iff it was shaded or is one of the given cells
+        def requires(c, self, *cells):
+            return c.and_(c.is_mesh(self), *[_cell_ok(c, self, cell) for cell in cells])
+
+        def ensures(c, self, *args):
+            cells, result = args[:-1], args[-1]
+            return c.and_(
+                c.seq_eq(result.pattern, self.pattern),
+                c.forall_cell(lambda a, b: c.iff(c.shaded(result, a, b), c.or_(c.shaded(self, a, b), *[c.and_(a == c.int(cell[0]), b == c.int(cell[1])) for cell in cells]))),
+                c.is_mesh(result),
+            )
+
+        modifies = ()
+
+    return _K
+
+
+for _k in (1, 2):
+    _shade(_k)
